@@ -84,10 +84,30 @@ class FakeTensor:
         self.log.append(("write", name))
 
 
-def save_harness(kind):
+class PathObj(Opaque):
+    """a pathlib.Path: every method that derives another path (with_suffix, with_name, parent, /, resolve, ...) yields a DIFFERENT object, so a
+    save/load that re-spells the caller's path is visible to the clause `same_file` (numpy itself decides about the .npz suffix)"""
+
+    def __init__(self, what="a pathlib.Path"):
+        super().__init__(what)
+
+    def __sym_getattr__(self, interp, name):
+        if name in ("suffix", "name", "stem"):
+            return Opaque(f"{self.what}.{name}")
+        return lambda *a, **k: PathObj(f"{self.what}.{name}(...)")
+
+
+class PathLib:
+    Path = TypeToken("Path", lambda interp, v: isinstance(v, PathObj))
+    PurePath = TypeToken("PurePath", lambda interp, v: isinstance(v, PathObj))
+
+
+def save_harness(kind, file_kind="opaque"):
     def h(ctx: Ctx):
         cfg = Config()
         cfg.builtins = default_builtins()
+        cfg.module_overrides["pathlib"] = PathLib
+        cfg.builtins["os.PathLike"] = PathLib.Path
         log = []
         calls = []
 
@@ -103,9 +123,9 @@ def save_harness(kind):
         cfg.module_overrides["mygrad.tensor_base"] = TB
         interp = Interp(ctx, cfg)
         f = interp.global_lookup(interp.module(IO), "save")
-        file = Opaque("file")
-        meta = dict(function=f"{IO}:save", case=kind)
-        tag = f"C18.save[{kind}]"
+        file = Opaque("file") if file_kind == "opaque" else PathObj()
+        meta = dict(function=f"{IO}:save", case=kind, file=file_kind)
+        tag = f"C18.save[{kind}]" if file_kind == "opaque" else f"C18.save[{kind},file=pathlib.Path]"
         if kind == "non-tensor":
             for bad in (Opaque("ndarray"), [1.0], 2.0, None):
                 try:
@@ -134,12 +154,14 @@ def save_harness(kind):
     return h
 
 
-def load_harness(kind):
+def load_harness(kind, file_kind="opaque"):
     def h(ctx: Ctx):
         cfg = Config()
         cfg.builtins = default_builtins()
+        cfg.module_overrides["pathlib"] = PathLib
+        cfg.builtins["os.PathLike"] = PathLib.Path
         events = []
-        file = Opaque("file")
+        file = Opaque("file") if file_kind == "opaque" else PathObj()
         data_arr, grad_arr = ArrV("stored data"), ArrV("stored grad")
 
         class Loaded:
@@ -177,8 +199,8 @@ def load_harness(kind):
         cfg.module_overrides["mygrad.tensor_base"] = TB
         interp = Interp(ctx, cfg)
         f = interp.global_lookup(interp.module(IO), "load")
-        meta = dict(function=f"{IO}:load", case=kind)
-        tag = f"C18.load[{kind}]"
+        meta = dict(function=f"{IO}:load", case=kind, file=file_kind)
+        tag = f"C18.load[{kind}]" if file_kind == "opaque" else f"C18.load[{kind},file=pathlib.Path]"
         r = interp.call(f, [file], {})
         ctx.oblige(f"{tag}.returns_new_tensor", r is nt, **meta)
         loads = [e for e in events if e[0] == "np.load"]
@@ -205,6 +227,7 @@ def obligations(tier="quick"):
         except frontend.ExtractionError as e:
             info["unsupported"].append(str(e))
     hs = [(f"save[{k}]", save_harness(k)) for k in ("non-tensor", "with-grad", "no-grad")] + [(f"load[{k}]", load_harness(k)) for k in ("with-grad", "no-grad")]
+    hs += [(f"save[{k},Path]", save_harness(k, "path")) for k in ("with-grad", "no-grad")] + [(f"load[{k},Path]", load_harness(k, "path")) for k in ("with-grad", "no-grad")]
     for name, h in hs:
         results = explore(h)
         k = 0
